@@ -44,6 +44,19 @@ def main():
                 rec["parameter_index"] = ns["parameter"]
                 rec["monitor_index"] = ns["monitor"]
                 rec["components"] = [c.name for c in ode.components]
+                # sub-models and what they export: missing_values asked for EVERY quantity of the exporting side
+                # (several states and parameters among them), in a fixed slot assignment
+                if len(ode.components) > 1 and not m.get("heavy"):
+                    parts = []
+                    for comp in sorted(ode.components, key=lambda c: c.name):
+                        for label, half in (("to_ode", comp.to_ode()), ("minus", ode - comp)):
+                            names = sorted([a.name for a in half.states] + [a.name for a in half.parameters]
+                                           + [a.name for a in half.intermediates] + [a.name for a in half.state_derivatives])
+                            req = {n: i for i, n in enumerate(reversed(names))}
+                            parts.append(label + comp.name + gx.numpy_code(half, ["explicit_euler"], missing_values=req)
+                                         + gx.c_code(half, [], missing_values=dict(req)))
+                            parts.append(json.dumps(dict(half.missing_variables), sort_keys=False))
+                    rec["split"] = sha("\n".join(parts))
                 # the model compares equal to itself loaded again
                 rec["self_equal"] = bool(gx.load(m["text"], name=m["id"]) == ode)
             first = {}
